@@ -1,5 +1,6 @@
 import OpcuaModel.Model.NodeId
 import OpcuaModel.Model.Graph
+import OpcuaModel.Model.Value
 /-! # NodeSet2 parsing: `nodeset_parser.extend_namespace_map`, `iterparse_xml` (header, aliases,
 batching), `process_elem_batch` and its helpers, `get_attrib_df`, the browse-name split,
 `parse_xml_without_normalization`, `parse_xml_files`, `normalize_wrt_nodeid`,
@@ -59,7 +60,7 @@ structure NodeElem where
   displayNames : List (Option Str)        -- `.text` of each DisplayName child, in order
   descriptions : List (Option Str)
   refs : List RefElem                     -- Reference children of all References children, in order
-deriving Repr, DecidableEq
+  value : Option Xml.T := none            -- first child of the first Value child, if it has one
 
 structure ReqModel where
   uri : Option Str
@@ -79,7 +80,6 @@ structure Doc where
   models : List ModelElem
   aliases : List (Str × Str)              -- Alias attribute, element text
   nodes : List NodeElem
-deriving Repr, DecidableEq
 
 /-! ### one node element → one row -/
 
@@ -98,7 +98,7 @@ structure NodeRow where
   parent : Option NodeId
   methodDecl : Option NodeId
   attrs : List (Str × AttrVal)            -- every other attribute the element has
-deriving Repr, DecidableEq
+  value : Option Val := none              -- typed Value (`findval` + `parse_value`)
 
 abbrev Triple := NodeId × NodeId × NodeId   -- (Src, Trg, ReferenceType)
 
@@ -166,6 +166,15 @@ def typedPair (p : Str × Str) : Except PyErr (Str × AttrVal) :=
   | .error e => .error e
   | .ok v => .ok (p.1, v)
 
+/-- `findval`: no Value element or an empty one is missing; otherwise `parse_value` of its first child -/
+def optDecode (v : Option Xml.T) : Except PyErr (Option Val) :=
+  match v with
+  | none => .ok none
+  | some t =>
+    match decodeValue t with
+    | .error x => .error x
+    | .ok val => .ok (some val)
+
 /-- `parse_node_attrib` + `finddisplayname` + `finddescription` + `get_attrib_df` + browse-name split -/
 def parseNode (nsmap : List (Int × Int)) (al : List (Str × NodeId)) (e : NodeElem) : Except PyErr NodeRow :=
   match lookup kNodeId e.attrs with
@@ -192,9 +201,12 @@ def parseNode (nsmap : List (Int × Int)) (al : List (Str × NodeId)) (e : NodeE
                 match mapE typedPair (e.attrs.filter fun p => !idAttrs.contains p.1) with
                 | .error x => .error x
                 | .ok others =>
-                  .ok { cls := e.cls, nodeId := nid, browseName := bn, browseNs := lookup bk nsmap,
-                        display := firstText e.displayNames, description := firstText e.descriptions,
-                        dataType := dt, parent := pa, methodDecl := md, attrs := others }
+                  match optDecode e.value with
+                  | .error x => .error x
+                  | .ok val =>
+                    .ok { cls := e.cls, nodeId := nid, browseName := bn, browseNs := lookup bk nsmap,
+                          display := firstText e.displayNames, description := firstText e.descriptions,
+                          dataType := dt, parent := pa, methodDecl := md, attrs := others, value := val }
 
 /-- `findrefs` + `fix_ref_attrib` + the IsForward swap for one Reference element of node `src` -/
 def parseRef (nsmap : List (Int × Int)) (al : List (Str × NodeId)) (src : NodeId) (r : RefElem) :
@@ -228,7 +240,6 @@ structure ParsedDoc where
   nodes : List NodeRow
   refs : List Triple
   models : List ModelElem
-deriving Repr
 
 /-- split a list into consecutive batches of `k` (the parser's `batchsize`) -/
 def batches {α} (k : Nat) (l : List α) : List (List α) :=
@@ -264,7 +275,6 @@ structure ParseOut where
   nodes : List NodeRow
   refs : List Triple
   models : List ModelElem
-deriving Repr
 
 /-- `parse_xml_files` (files already filtered and sorted), before normalisation -/
 def parseFilesAux : List Str → List Doc → Except PyErr ParseOut
